@@ -125,7 +125,7 @@ func UF(name string, res Sort, args ...*Term) *Term {
 func smtName(s string) string {
 	ok := true
 	for _, c := range s {
-		if !(c >= 'a' && c <= 'z' || c >= 'A' && c <= 'Z' || c >= '0' && c <= '9' || strings.ContainsRune("_$!.#@%~-^&*+/<>=?", c)) {
+		if !(c >= 'a' && c <= 'z' || c >= 'A' && c <= 'Z' || c >= '0' && c <= '9' || strings.ContainsRune("_$!.@%~-^&*+/<>=?", c)) {
 			ok = false
 		}
 	}
